@@ -412,7 +412,8 @@ func c12MutatorResults(c *Ctx) {
 			c.CheckerFail("mutator.result", "anchor hclwrite."+n+" does not resolve")
 		}
 	}
-	alwaysMutates := func(f *ssa.Function) bool {
+	var alwaysMutates func(f *ssa.Function, depth int) bool
+	alwaysMutates = func(f *ssa.Function, depth int) bool {
 		seen := map[*ssa.BasicBlock]bool{}
 		var walk func(b *ssa.BasicBlock) bool
 		walk = func(b *ssa.BasicBlock) bool {
@@ -421,8 +422,15 @@ func c12MutatorResults(c *Ctx) {
 			}
 			seen[b] = true
 			for _, ins := range b.Instrs {
-				if call, ok := ins.(*ssa.Call); ok && muts[call.Call.StaticCallee()] {
-					return true
+				if call, ok := ins.(*ssa.Call); ok {
+					cal := call.Call.StaticCallee()
+					if muts[cal] {
+						return true
+					}
+					// a helper of the package every path of which edits
+					if cal != nil && depth < 3 && cal != f && fnPkg(cal) == fnPkg(f) && len(cal.Blocks) > 0 && alwaysMutates(cal, depth+1) {
+						return true
+					}
 				}
 				if _, ok := ins.(*ssa.Return); ok {
 					return false
@@ -449,7 +457,7 @@ func c12MutatorResults(c *Ctx) {
 		if rn := namedOf(fn.Signature.Recv().Type()); rn == nil || (rn.Obj().Name() != "Body" && rn.Obj().Name() != "Block") {
 			continue
 		}
-		if !alwaysMutates(fn) {
+		if !alwaysMutates(fn, 0) {
 			continue
 		}
 		n++
@@ -485,55 +493,122 @@ func c12AppendNewline(c *Ctx) {
 	c.Fn(FuncName(ai))
 	// a terminating helper: appends a newline on the not-a-line-end edge of tokenIsNewline(last token),
 	// and nowhere else
+	var isLastToken func(v ssa.Value, fn *ssa.Function, d int) bool
+	isLastToken = func(v ssa.Value, fn *ssa.Function, d int) bool {
+		if d > 4 {
+			return false
+		}
+		switch x := v.(type) {
+		case *ssa.UnOp:
+			if ia, isIA := x.X.(*ssa.IndexAddr); isIA && x.Op == token.MUL {
+				if lx, cc, ok := lenMinus(ia.Index); ok && cc == 1 {
+					bc := &boundsCtx{fn: fn}
+					return bc.sameSeq(lx, ia.X)
+				}
+			}
+		case *ssa.Phi:
+			n := 0
+			for _, e := range x.Edges {
+				if cn, ok := e.(*ssa.Const); ok && cn.IsNil() {
+					continue
+				}
+				if !isLastToken(e, fn, d+1) {
+					return false
+				}
+				n++
+			}
+			return n > 0
+		case *ssa.Extract:
+			if call, ok := x.Tuple.(*ssa.Call); ok {
+				if g := call.Call.StaticCallee(); g != nil && inModule(g) && len(g.Blocks) > 0 {
+					n := 0
+					for _, gb := range g.Blocks {
+						r, ok := gb.Instrs[len(gb.Instrs)-1].(*ssa.Return)
+						if !ok || len(r.Results) <= x.Index {
+							continue
+						}
+						if cn, ok := r.Results[x.Index].(*ssa.Const); ok && cn.IsNil() {
+							continue
+						}
+						if !isLastToken(r.Results[x.Index], g, d+1) {
+							return false
+						}
+						n++
+					}
+					return n > 0
+				}
+			}
+		case *ssa.Call:
+			if g := x.Call.StaticCallee(); g != nil && inModule(g) && len(g.Blocks) > 0 {
+				n := 0
+				for _, gb := range g.Blocks {
+					r, ok := gb.Instrs[len(gb.Instrs)-1].(*ssa.Return)
+					if !ok || len(r.Results) != 1 {
+						continue
+					}
+					if cn, ok := r.Results[0].(*ssa.Const); ok && cn.IsNil() {
+						continue
+					}
+					if !isLastToken(r.Results[0], g, d+1) {
+						return false
+					}
+					n++
+				}
+				return n > 0
+			}
+		}
+		return false
+	}
+	// (E-condeval with the atom P = tokenIsNewline(last token))
 	terminates := func(h *ssa.Function) (bool, string) {
 		if h == nil || len(h.Blocks) == 0 {
 			return false, "no body"
 		}
-		nAppend := 0
+		var sites []*ssa.BasicBlock
 		for _, b := range h.Blocks {
 			for _, ins := range b.Instrs {
-				call, ok := ins.(*ssa.Call)
-				if !ok || call.Call.StaticCallee() != anl {
-					continue
-				}
-				nAppend++
-				// the block is entered on the false edge of tokenIsNewline(...)
-				okEdge := false
-				if len(b.Preds) == 1 {
-					p := b.Preds[0]
-					if iff, isIf := p.Instrs[len(p.Instrs)-1].(*ssa.If); isIf {
-						cond, neg := iff.Cond, false
-						if u, isNot := cond.(*ssa.UnOp); isNot && u.Op == token.NOT {
-							cond, neg = u.X, true
-						}
-						if tc, isCall := cond.(*ssa.Call); isCall && tc.Call.StaticCallee() == tin {
-							// argument: element len-1 of a token slice
-							lastTok := false
-							if ld, isLd := tc.Call.Args[0].(*ssa.UnOp); isLd && ld.Op == token.MUL {
-								if ia, isIA := ld.X.(*ssa.IndexAddr); isIA {
-									if lx, cc, ok := lenMinus(ia.Index); ok && cc == 1 {
-										bc := &boundsCtx{fn: h}
-										lastTok = bc.sameSeq(lx, ia.X)
-									}
-								}
-							}
-							side := 1
-							if neg {
-								side = 0
-							}
-							okEdge = lastTok && p.Succs[side] == b
-						}
-					}
-				}
-				if !okEdge {
-					return false, "a newline is appended on a condition other than !tokenIsNewline(last token)"
+				if call, ok := ins.(*ssa.Call); ok && call.Call.StaticCallee() == anl {
+					sites = append(sites, b)
 				}
 			}
 		}
-		if nAppend == 0 {
+		if len(sites) == 0 {
 			return false, "never appends a newline"
 		}
-		// on the is-a-line-end edge nothing is appended: covered by nAppend sites all being on the false edge
+		// every question asked of the predicate in this helper is about the last token
+		nPred := 0
+		for _, f := range append([]*ssa.Function{h}, moduleCallees(h, 1, map[*ssa.Function]bool{})...) {
+			for _, b := range f.Blocks {
+				for _, ins := range b.Instrs {
+					if tc, ok := ins.(*ssa.Call); ok && tc.Call.StaticCallee() == tin && f != tin {
+						nPred++
+						if !isLastToken(tc.Call.Args[0], f, 0) {
+							return false, "tokenIsNewline is asked of a token other than the last token of the existing content"
+						}
+					}
+				}
+			}
+		}
+		if nPred == 0 {
+			return false, "a newline is appended on a condition other than !tokenIsNewline(last token)"
+		}
+		atoms := &condAtoms{pred: tin, strEq: map[string]string{}}
+		atoms.assign = map[string]bool{"P": true}
+		rt := atoms.run(h, 0)
+		atoms.assign = map[string]bool{"P": false}
+		rf := atoms.run(h, 0)
+		anyF := false
+		for _, b := range sites {
+			if rt.reach[b] {
+				return false, "a newline is appended on a condition other than !tokenIsNewline(last token): it is appended although the last token already ends the line"
+			}
+			if rf.reach[b] {
+				anyF = true
+			}
+		}
+		if !anyF {
+			return false, "a newline is appended on a condition other than !tokenIsNewline(last token): never when the last token leaves the line unfinished"
+		}
 		return true, ""
 	}
 	// appendItem: an unconditional call of such a helper before the append
